@@ -1,5 +1,5 @@
 Require Extraction.
 From Coq Require Import ExtrOcamlBasic.
-From Cloak Require Import Model.Hello Model.FirstPacket Model.Dispatch Model.DispatchInst Model.Crypto.GCM Model.LowOrder.
+From Cloak Require Import Model.Hello Model.FirstPacket Model.Dispatch Model.DispatchInst Model.Crypto.GCM Model.LowOrder Model.ServerInit.
 Extraction Blacklist List String Int.
-Extraction "../ocaml/gen/c07.ml" rfp auth_first_packet decide dispatch_conn packet_of gcm_open dh_real in_window client_ns low_order low_order_points.
+Extraction "../ocaml/gen/c07.ml" rfp auth_first_packet decide dispatch_conn packet_of gcm_open dh_real in_window client_ns low_order low_order_points init_state is_bypass redir_host_port.
